@@ -132,6 +132,8 @@ impl Drop for WakeFd {
 }
 
 pub(crate) fn wake(pipe: RawFd, method: WakeMethod) {
+    #[cfg(sighook_verif)]
+    sighook_shim::hook::pre_wake(pipe, match method { WakeMethod::Send => true, WakeMethod::Write => false });
     unsafe {
         // This writes some data into the pipe.
         //
